@@ -238,7 +238,21 @@ func (x *Exec) evalBinary(n *ast.BinaryExpr, st *State) (Val, *State) {
 		}
 		sub := st.clone()
 		sub.pc = x.c.define("pc.sc", SBool, tAnd(st.pc, guard))
-		r, _ := x.eval(n.Y, sub)
+		r, sub2 := x.eval(n.Y, sub)
+		if sub2 == nil {
+			// the right operand never returns: only the short-circuit path continues
+			skip := st.clone()
+			skip.pc = x.c.define("pc.sk", SBool, tAnd(st.pc, tNot(guard)))
+			return scBool(lt), skip
+		}
+		if x.stateChanged(st, sub2) {
+			x.c.notes = append(x.c.notes, "short-circuit operand with effects: "+x.c.posOf(n))
+			// the right operand has effects (a call that writes the heap, a trace, a ghost): the state afterwards is the join
+			// of the path that evaluated it and the path that skipped it
+			skip := st.clone()
+			skip.pc = x.c.define("pc.sk", SBool, tAnd(st.pc, tNot(guard)))
+			st = x.merge([]*State{sub2, skip})
+		}
 		if n.Op == token.LAND {
 			return scBool(tAnd(lt, r.(Sc).T)), st
 		}
@@ -1362,4 +1376,32 @@ func (x *Exec) unbox(tok string, t types.Type) (Val, bool) {
 		}
 	}
 	return nil, false
+}
+
+// stateChanged reports whether evaluating an operand changed anything of the state but its path condition.
+func (x *Exec) stateChanged(a, b *State) bool {
+	if len(a.vars) != len(b.vars) || len(a.ghost) != len(b.ghost) {
+		return true
+	}
+	for k, v := range b.vars {
+		if w, ok := a.vars[k]; !ok || !sameVal(v, w) {
+			return true
+		}
+	}
+	for k, v := range b.ghost {
+		if w, ok := a.ghost[k]; !ok || !sameVal(v, w) {
+			return true
+		}
+	}
+	for k := range b.heap {
+		if !sameVal(x.heapField(a, k), x.heapField(b, k)) {
+			return true
+		}
+	}
+	for k := range a.heap {
+		if _, ok := b.heap[k]; !ok {
+			return true
+		}
+	}
+	return false
 }
